@@ -12,6 +12,8 @@ package main
 
 //@ func (*IPFIX).ipfixWorker
 //@   names i wQuit decodedMsg mirror msg buf err ok b d
+//@   opt nonblocking ipfixMCh ipfixMQCh   // a full mirror queue or a full producer queue never stops decoding (C16, C13)
+//@   names i wQuit decodedMsg mirror msg buf err ok b d
 //@   opt ownership datagram, mirror and encode buffers: released or handed-over buffers are not touched again; published values are fresh copies
 //@   requires opts != nil && opts.IPFIXUDPSize >= 0
 //@   opt nonterminating
@@ -28,6 +30,8 @@ package main
 //@ poolinv netflowV9Buffer x: iskind(x, bytes) && typeid(x) == tyof([]byte) && len(anybytes(x)) == opts.NetflowV9UDPSize && cap(anybytes(x)) >= opts.NetflowV9UDPSize
 
 //@ func (*NetflowV9).netflowV9Worker
+//@   names i wQuit decodedMsg msg buf err ok b d
+//@   opt nonblocking netflowV9MQCh
 //@   names i wQuit decodedMsg msg buf err ok b d
 //@   opt ownership datagram, mirror and encode buffers: released or handed-over buffers are not touched again; published values are fresh copies
 //@   requires opts != nil && opts.NetflowV9UDPSize >= 0
@@ -46,6 +50,8 @@ package main
 
 //@ func (*NetflowV5).netflowV5Worker
 //@   names i wQuit decodedMsg msg buf err ok b d
+//@   opt nonblocking netflowV5MQCh
+//@   names i wQuit decodedMsg msg buf err ok b d
 //@   opt ownership datagram, mirror and encode buffers: released or handed-over buffers are not touched again; published values are fresh copies
 //@   requires opts != nil && opts.NetflowV5UDPSize >= 0
 //@   opt nonterminating
@@ -61,6 +67,8 @@ package main
 //@ poolinv sFlowBuffer x: iskind(x, bytes) && typeid(x) == tyof([]byte) && len(anybytes(x)) == opts.SFlowUDPSize && cap(anybytes(x)) >= opts.SFlowUDPSize
 
 //@ func (*SFlow).sFlowWorker
+//@   names s wQuit reader msg mirror ok b d datagram err
+//@   opt nonblocking sFlowMCh sFlowMQCh
 //@   names s wQuit reader msg mirror ok b d datagram err
 //@   callassert NewSFDecoder: arg1 == opts.SFlowTypeFilter
 //@   names s wQuit reader msg mirror ok b d datagram err
@@ -80,6 +88,8 @@ package main
 
 //@ func (*IPFIX).run
 //@   names i hostPort udpAddr _ conn err n wQuit p err b n raddr err
+//@   opt ownership a receive buffer handed to the workers is not touched again by the receive loop
+//@   names i hostPort udpAddr _ conn err n wQuit p err b n raddr err
 //@   requires opts != nil && opts.IPFIXUDPSize >= 0 && opts.IPFIXUDPSize <= 1048576
 //@   opt nonterminating
 //@   modifies i, mCache, ipfix.InfoModel
@@ -89,8 +99,12 @@ package main
 //@   loop 2 @ for !i.stop #ad74cfa7
 //@     invariant i != nil && opts != nil && opts == old(opts) && opts.IPFIXUDPSize >= 0 && opts.IPFIXUDPSize <= 1048576 && conn != nil && wellFormed(mCache)
 //@     step [received] (sends_ipfixUDPCh == iter(sends_ipfixUDPCh) + 1 && i.stats.UDPCount == (iter(i.stats.UDPCount) + 1) % 18446744073709551616) || (sends_ipfixUDPCh == iter(sends_ipfixUDPCh) && i.stats.UDPCount == iter(i.stats.UDPCount))
+//@     step [counted] err == nil ==> sends_ipfixUDPCh == iter(sends_ipfixUDPCh) + 1 && i.stats.UDPCount == (iter(i.stats.UDPCount) + 1) % 18446744073709551616   // whatever the socket delivers is counted once and handed to the workers once, however short it is
+//@     step [idle] err != nil ==> sends_ipfixUDPCh == iter(sends_ipfixUDPCh) && i.stats.UDPCount == iter(i.stats.UDPCount)
 
 //@ func (*NetflowV9).run
+//@   names i hostPort udpAddr _ conn err n wQuit p err b n raddr err
+//@   opt ownership a receive buffer handed to the workers is not touched again by the receive loop
 //@   names i hostPort udpAddr _ conn err n wQuit p err b n raddr err
 //@   requires opts != nil && opts.NetflowV9UDPSize >= 0
 //@   opt nonterminating
@@ -101,8 +115,12 @@ package main
 //@   loop 2 @ for !i.stop #62295c79
 //@     invariant i != nil && opts != nil && opts == old(opts) && opts.NetflowV9UDPSize >= 0 && conn != nil && wellFormed9(mCacheNF9)
 //@     step [received] (sends_netflowV9UDPCh == iter(sends_netflowV9UDPCh) + 1 && i.stats.UDPCount == (iter(i.stats.UDPCount) + 1) % 18446744073709551616) || (sends_netflowV9UDPCh == iter(sends_netflowV9UDPCh) && i.stats.UDPCount == iter(i.stats.UDPCount))
+//@     step [counted] err == nil ==> sends_netflowV9UDPCh == iter(sends_netflowV9UDPCh) + 1 && i.stats.UDPCount == (iter(i.stats.UDPCount) + 1) % 18446744073709551616   // whatever the socket delivers is counted once and handed to the workers once, however short it is
+//@     step [idle] err != nil ==> sends_netflowV9UDPCh == iter(sends_netflowV9UDPCh) && i.stats.UDPCount == iter(i.stats.UDPCount)
 
 //@ func (*NetflowV5).run
+//@   names i hostPort udpAddr _ conn err n wQuit p err b n raddr err
+//@   opt ownership a receive buffer handed to the workers is not touched again by the receive loop
 //@   names i hostPort udpAddr _ conn err n wQuit p err b n raddr err
 //@   requires opts != nil && opts.NetflowV5UDPSize >= 0
 //@   opt nonterminating
@@ -113,8 +131,12 @@ package main
 //@   loop 2 @ for !i.stop #642870ad
 //@     invariant i != nil && opts != nil && opts == old(opts) && opts.NetflowV5UDPSize >= 0 && conn != nil
 //@     step [received] (sends_netflowV5UDPCh == iter(sends_netflowV5UDPCh) + 1 && i.stats.UDPCount == (iter(i.stats.UDPCount) + 1) % 18446744073709551616) || (sends_netflowV5UDPCh == iter(sends_netflowV5UDPCh) && i.stats.UDPCount == iter(i.stats.UDPCount))
+//@     step [counted] err == nil ==> sends_netflowV5UDPCh == iter(sends_netflowV5UDPCh) + 1 && i.stats.UDPCount == (iter(i.stats.UDPCount) + 1) % 18446744073709551616   // whatever the socket delivers is counted once and handed to the workers once, however short it is
+//@     step [idle] err != nil ==> sends_netflowV5UDPCh == iter(sends_netflowV5UDPCh) && i.stats.UDPCount == iter(i.stats.UDPCount)
 
 //@ func (*SFlow).run
+//@   names s err hostPort udpAddr _ i wQuit p err b n raddr err
+//@   opt ownership a receive buffer handed to the workers is not touched again by the receive loop
 //@   names s err hostPort udpAddr _ i wQuit p err b n raddr err
 //@   requires opts != nil && opts.SFlowUDPSize >= 0 && opts.SFlowUDPSize <= 1048576
 //@   opt nonterminating
@@ -125,6 +147,8 @@ package main
 //@   loop 2 @ for !s.stop #478364a2
 //@     invariant s != nil && opts != nil && opts == old(opts) && opts.SFlowUDPSize >= 0 && opts.SFlowUDPSize <= 1048576 && s.conn != nil
 //@     step [received] (sends_sFlowUDPCh == iter(sends_sFlowUDPCh) + 1 && s.stats.UDPCount == (iter(s.stats.UDPCount) + 1) % 18446744073709551616) || (sends_sFlowUDPCh == iter(sends_sFlowUDPCh) && s.stats.UDPCount == iter(s.stats.UDPCount))
+//@     step [counted] err == nil ==> sends_sFlowUDPCh == iter(sends_sFlowUDPCh) + 1 && s.stats.UDPCount == (iter(s.stats.UDPCount) + 1) % 18446744073709551616   // whatever the socket delivers is counted once and handed to the workers once, however short it is
+//@     step [idle] err != nil ==> sends_sFlowUDPCh == iter(sends_sFlowUDPCh) && s.stats.UDPCount == iter(s.stats.UDPCount)
 
 
 // ---- mirroring (C16) ---------------------------------------------------------------------------------
@@ -155,6 +179,8 @@ package main
 //@     invariant !ipv4 ==> ipHLen == 40 && isboxed(ip, mirror.IPv6)
 //@     invariant udpHdr[0]*256 + udpHdr[1] == 55117 && udpHdr[2]*256 + udpHdr[3] == port % 65536
 
+// an exporter address is IPv4 when it has four octets or is the sixteen-octet IPv4-mapped form (what To4 accepts)
+//@ pred v4form(ip net.IP) = len(ip) == 4 || (len(ip) == 16 && ip[0] == 0 && ip[1] == 0 && ip[2] == 0 && ip[3] == 0 && ip[4] == 0 && ip[5] == 0 && ip[6] == 0 && ip[7] == 0 && ip[8] == 0 && ip[9] == 0 && ip[10] == 255 && ip[11] == 255)
 //@ func mirrorIPFIXDispatcher
 //@   names ch ch4 ch6 msg w dst
 //@   requires opts != nil && opts.IPFIXUDPSize >= 0 && opts.IPFIXUDPSize <= 1048576 && mirrorMsgs(ch)
@@ -165,6 +191,8 @@ package main
 //@     decreases opts.IPFIXMirrorWorkers - w
 //@   loop 2 @ for #92e98e0d
 //@     invariant opts != nil && opts == old(opts) && mirrorMsgs(ch) && mirrorMsgs(ch4) && mirrorMsgs(ch6)
+//@     step [route4] v4form(msg.raddr.IP) ==> sends_ch4 == iter(sends_ch4) + 1 && sends_ch6 == iter(sends_ch6) && lastsent_ch4 == msg   // every datagram of an IPv4 exporter (either address form) goes, unchanged and once, to the IPv4 mirror workers
+//@     step [route6] !v4form(msg.raddr.IP) ==> sends_ch6 == iter(sends_ch6) + 1 && sends_ch4 == iter(sends_ch4) && lastsent_ch6 == msg
 
 //@ func mirrorSFlow
 //@   names dst port ch _ packet msg pLen err ipHdr ipHLen ipv4 ip conn udp udpHdr
@@ -189,6 +217,8 @@ package main
 //@     decreases opts.SFlowMirrorWorkers - w
 //@   loop 2 @ for #92e98e0d
 //@     invariant opts != nil && opts == old(opts) && mirrorMsgsSF(ch) && mirrorMsgsSF(ch4) && mirrorMsgsSF(ch6)
+//@     step [route4] v4form(msg.raddr.IP) ==> sends_ch4 == iter(sends_ch4) + 1 && sends_ch6 == iter(sends_ch6) && lastsent_ch4 == msg   // every datagram of an IPv4 exporter (either address form) goes, unchanged and once, to the IPv4 mirror workers
+//@     step [route6] !v4form(msg.raddr.IP) ==> sends_ch6 == iter(sends_ch6) + 1 && sends_ch4 == iter(sends_ch4) && lastsent_ch6 == msg
 
 // ---- configuration precedence (C17) --------------------------------------------------------------------
 // -sflow-type-filter: every comma-separated piece becomes one list entry, in order, with the parsed value unchanged
